@@ -20,30 +20,30 @@ CONSTANTS Families,        \* families of the catalogue to enumerate
           FixedWrap,       \* mechanism variant, see Frame.tla
           DoExport
 
-VARIABLES phase, call, nd, opt, lay, val, args0, args, outcome, work, ver
-vars == <<phase, call, nd, opt, lay, val, args0, args, outcome, work, ver>>
+VARIABLES phase, call, nd, opt, lay, val, size, args0, args, outcome, work, ver
+vars == <<phase, call, nd, opt, lay, val, size, args0, args, outcome, work, ver>>
 
 C == FrCallNamed(call)
 NP == Len(C.params)
 
 ASSUME Cardinality(FrCallNames) = Cardinality(FrCalls)          \* names identify calls
 
-Init == /\ phase = "start" /\ call = "" /\ nd = 0 /\ opt = "" /\ lay = <<>> /\ val = <<>>
+Init == /\ phase = "start" /\ call = "" /\ nd = 0 /\ opt = "" /\ lay = <<>> /\ val = <<>> /\ size = <<>>
         /\ args0 = <<>> /\ args = <<>> /\ outcome = "" /\ work = <<>> /\ ver = <<>>
 
 ChooseCall ==
     /\ phase = "start"
     /\ \E c \in {x \in FrCalls : x.fam \in Families} : \E d \in c.ndims \cap NDims : \E o \in c.opts :
           call' = c.name /\ nd' = d /\ opt' = o
-    /\ phase' = "call" /\ UNCHANGED <<lay, val, args0, args, outcome, work, ver>>
+    /\ phase' = "call" /\ UNCHANGED <<lay, val, size, args0, args, outcome, work, ver>>
 
 \* abstract snapshot of an argument built in layout l holding values of class v
 Snap0(l, d, v) == [data |-> <<"d0", v>>, base |-> <<"b0", v>>, dtype |-> <<l.kind, l.order>>, flags |-> <<l.contig, d>>]
 
 ChooseLayouts ==
     /\ phase = "call"
-    /\ \E a \in FrAssignments(C, nd, Pairwise, ValNDims) :
-          /\ lay' = a.lay /\ val' = a.val
+    /\ \E a \in FrAssignments(C, nd, opt, Pairwise, ValNDims) :
+          /\ lay' = a.lay /\ val' = a.val /\ size' = a.size
           /\ args0' = [i \in 1..NP |-> Snap0(a.lay[i], nd, a.val[i])]
           /\ args' = [i \in 1..NP |-> Snap0(a.lay[i], nd, a.val[i])]
           /\ work' = [i \in 1..NP |-> "none"] /\ ver' = [i \in 1..NP |-> 0]
@@ -51,32 +51,40 @@ ChooseLayouts ==
 
 \* ---- property level: the call, with its frame condition ------------------------------
 Protected == {i \in 1..NP : ~C.params[i].mut}
+\* the call returns, or it is rejected (deliberately - FrExpectReject - or not): the frame condition is the same
 Invoke ==
     /\ phase = "built"
-    /\ outcome' \in {"returned", "raised"}              \* exceptions are fine - the frame condition still applies
+    /\ outcome' \in {"returned", "raised"}
     /\ \E W \in SUBSET ((1..NP) \ Protected) :          \* documented in-place arguments may be written
           args' = [i \in 1..NP |-> IF i \in W THEN [args[i] EXCEPT !.data = <<"d1", val[i]>>, !.base = <<"b1", val[i]>>] ELSE args[i]]
     /\ phase' = "returned"
-    /\ UNCHANGED <<call, nd, opt, lay, val, args0, work, ver>>
+    /\ UNCHANGED <<call, nd, opt, lay, val, size, args0, work, ver>>
 
 \* ---- implementation-shaped path ------------------------------------------------------------
 MAcquire ==
     /\ phase = "built"
     /\ work' = [i \in 1..NP |-> FrAcquire(C, opt, lay[i], FixedTextWrite, FixedWrap)]
-    /\ phase' = "m_acquired" /\ UNCHANGED <<call, nd, opt, lay, val, args0, args, outcome, ver>>
+    /\ phase' = "m_acquired" /\ UNCHANGED <<call, nd, opt, lay, val, size, args0, args, outcome, ver>>
 
 MWork ==
     /\ phase = "m_acquired"
     /\ ver' = [i \in 1..NP |-> IF work[i] = "alias" /\ FrWritesWork(C, opt, lay[i], val[i]) THEN ver[i] + 1 ELSE ver[i]]
-    /\ phase' = "m_worked" /\ UNCHANGED <<call, nd, opt, lay, val, args0, args, outcome, work>>
+    /\ phase' = "m_worked" /\ UNCHANGED <<call, nd, opt, lay, val, size, args0, args, outcome, work>>
 
 MReturn ==
     /\ phase = "m_worked"
     /\ args' = [i \in 1..NP |-> IF ver[i] > 0 THEN [args[i] EXCEPT !.data = <<"d1", val[i]>>, !.base = <<"b1", val[i]>>] ELSE args[i]]
     /\ outcome' = "returned" /\ phase' = "m_returned"
-    /\ UNCHANGED <<call, nd, opt, lay, val, args0, work, ver>>
+    /\ UNCHANGED <<call, nd, opt, lay, val, size, args0, work, ver>>
 
-Next == ChooseCall \/ ChooseLayouts \/ Invoke \/ MAcquire \/ MWork \/ MReturn
+\* the callee raises after it has worked (a rejection found late): what it wrote into an alias stays written
+MReject ==
+    /\ phase = "m_worked"
+    /\ args' = [i \in 1..NP |-> IF ver[i] > 0 THEN [args[i] EXCEPT !.data = <<"d1", val[i]>>, !.base = <<"b1", val[i]>>] ELSE args[i]]
+    /\ outcome' = "raised" /\ phase' = "m_returned"
+    /\ UNCHANGED <<call, nd, opt, lay, val, size, args0, work, ver>>
+
+Next == ChooseCall \/ ChooseLayouts \/ Invoke \/ MAcquire \/ MWork \/ MReturn \/ MReject
 NextExport == ChooseCall \/ ChooseLayouts
 Spec == Init /\ [][Next]_vars
 
@@ -93,14 +101,17 @@ CatalogueOK == \A c \in FrCalls :
     /\ \A i \in DOMAIN c.params : c.params[i].base \in c.params[i].kinds /\ c.params[i].kinds \subseteq FrKinds
                                     /\ "ord" \in c.params[i].vals /\ c.params[i].vals \subseteq FrVals
     /\ \E i \in DOMAIN c.params : ~c.params[i].mut
+    /\ c.rejopts \subseteq c.opts /\ c.big \subseteq c.opts /\ (c.big # {} => 1 \in c.ndims)
     /\ \A i, j \in DOMAIN c.params : i # j => c.params[i].p # c.params[j].p
 
 LayoutsOK == phase \notin {"start", "call"} =>
-    \A i \in 1..NP : lay[i].kind \in C.params[i].kinds /\ FrLayoutOK(lay[i], nd) /\ FrValOK(C.params[i], lay[i], val[i], nd)
+    \A i \in 1..NP : /\ lay[i].kind \in FrKindsOf(C.params[i]) /\ FrLayoutOK(lay[i], nd) /\ FrValOK(C.params[i], lay[i], val[i], nd)
+                     /\ size[i] \in FrSizes /\ (size[i] = "large" => nd = 1 /\ opt \in C.big)
 
 \* ---- export ----------------------------------------------------------------------------------
 Export == (DoExport /\ phase = "built") =>
     PrintT(<<"CASE", ToJson([call |-> call, fam |-> C.fam, nd |-> nd, opt |-> opt,
                              params |-> [i \in 1..NP |-> [p |-> C.params[i].p, role |-> C.params[i].role,
-                                                          mut |-> C.params[i].mut, lay |-> lay[i], val |-> val[i]]]])>>)
+                                                          mut |-> C.params[i].mut, lay |-> lay[i], val |-> val[i], size |-> size[i]]],
+                             expect |-> IF FrExpectReject(C, opt, val, size) THEN "reject" ELSE "any"])>>)
 =============================================================================
